@@ -6,6 +6,7 @@ require (
 	github.com/anishathalye/porcupine v1.3.0
 	github.com/go-chi/chi/v5 v5.2.5
 	github.com/libp2p/go-buffer-pool v0.1.0
+	github.com/ncruces/go-sqlite3 v0.30.5
 	github.com/quic-go/quic-go v0.59.0
 	github.com/tidwall/wal v1.2.1
 	github.com/twitchtv/twirp v8.1.3+incompatible
@@ -37,7 +38,7 @@ require (
 	github.com/mattn/go-runewidth v0.0.16 // indirect
 	github.com/mholt/acmez/v3 v3.1.6 // indirect
 	github.com/miekg/dns v1.1.72 // indirect
-	github.com/ncruces/go-sqlite3 v0.30.5 // indirect
+	github.com/montanaflynn/stats v0.7.1 // indirect
 	github.com/ncruces/julianday v1.0.0 // indirect
 	github.com/planetscale/vtprotobuf v0.6.0 // indirect
 	github.com/pmezard/go-difflib v1.0.0 // indirect
